@@ -136,6 +136,7 @@ func (m *MemQuerier) SelectLogs(_ context.Context, start, end otelstorage.Timest
 	m.mu.Unlock()
 
 	var out []logstorage.Record
+	shared := map[string]otelstorage.Attrs{}
 recs:
 	for _, rec := range m.Recs {
 		if !m.Superset && (rec.TS < int64(start) || rec.TS > int64(end)) {
@@ -154,7 +155,17 @@ recs:
 				continue recs
 			}
 		}
-		out = append(out, memRecord(rec))
+		// records of one label set share one resource map, the way all records of a container share
+		// the container's resource in the Docker storage: a stage that writes into it would leak into
+		// the following records
+		lk := labelKey(rec.Labels)
+		r := memRecord(rec)
+		if res, ok := shared[lk]; ok {
+			r.ResourceAttrs = res
+		} else {
+			shared[lk] = r.ResourceAttrs
+		}
+		out = append(out, r)
 	}
 	it := &memIter{m: m, recs: out, errAfter: -1}
 	if m.ErrAfter >= 0 && (m.ErrOnCall == 0 || m.ErrOnCall == call) {
